@@ -132,8 +132,11 @@ class Group:
         s.build_s = time.time() - t0
         # one main per instance
         for inst in s.g['instances']:
-            mc = ['#include "g.c"', '#include "%s"' % os.path.join(MODELS, 'base.h')]
+            # pointer/bounds checks stay on for the translated real code (g.c); model code is trusted environment
+            mc = ['#include "g.c"', '#pragma CPROVER check push', '#pragma CPROVER check disable "pointer"', '#pragma CPROVER check disable "bounds"',
+                  '#include "%s"' % os.path.join(MODELS, 'base.h')]
             mc += ['#include "%s"' % p for p in mp]
+            mc.append('#pragma CPROVER check pop')
             mc.append('int main(int argc, char **argv) {\n#ifndef __CPROVER__\n vp_native_open(argc > 1 ? argv[1] : 0);\n#endif\n vp_base_init(); __ll2c_global_ctors(); F_%s();\n#ifdef __CPROVER__\n __CPROVER_assert(0, "WITNESS reachability of harness end");\n#else\n vp_native_done();\n#endif\n return 0; }' % inst['entry'])
             open(os.path.join(s.dir, 'main_%s.c' % inst['name']), 'w').write('\n'.join(mc) + '\n')
 
